@@ -58,7 +58,7 @@ def gen_operand(rng, npool, n_foreign=0, depth=0):
         return {"t": "const", "v": (rng.randint(-8, 12) / 4.0).hex()}
     if r < 0.78:
         return {"t": "unary", "op": rng.choice(["neg", "abs"]), "a": {"t": "prior", "ref": rng.randrange(npool)}}
-    op = rng.choice(["+", "*", "/", "-", "-"])
+    op = rng.choice(["+", "*", "/", "-", "-", "%", "%", "//"])
     l = gen_operand(rng, npool, 0, depth + 1) if (depth == 0 and rng.random() < 0.15) else gen_atom(rng, npool)
     rr = gen_atom(rng, npool)
     if l["t"] == "const" and rr["t"] == "const":
@@ -66,7 +66,7 @@ def gen_operand(rng, npool, n_foreign=0, depth=0):
             l = {"t": "prior", "ref": rng.randrange(npool)}
         else:
             rr = {"t": "prior", "ref": rng.randrange(npool)}
-    if op == "/" and rr["t"] == "const" and rng.random() < 0.06:
+    if op in ("/", "%", "//") and rr["t"] == "const" and rng.random() < 0.06:
         rr = {"t": "const", "v": (0.0).hex()}      # p / 0.0: ZeroDivisionError whatever the vector
     return {"t": "arith", "op": op, "l": l, "r": rr}
 
@@ -504,6 +504,10 @@ def apply_op(op, a, b):
         return a * b
     if op == "/":
         return a / b           # Python float division: ZeroDivisionError for a zero divisor
+    if op == "%":
+        return a % b           # the sign of the divisor; ZeroDivisionError for a zero divisor
+    if op == "//":
+        return a // b
     raise ValueError(op)
 
 
@@ -822,6 +826,9 @@ def run(ctx):
                     ops_ = json.dumps([at["recipe"] for at in r["attaches"]])
                     ctx.hist("correspondence:unary-in-assertion-operands",
                              "neg/abs operand" if '"t": "unary"' in ops_ else ("no unary operand" if r["attaches"] else "no assertion"))
+                    for o_ in ("%", "//"):
+                        if '"op": "%s"' % o_ in ops_:
+                            ctx.hist("correspondence:unary-in-assertion-operands", "operand with %s" % o_)
                     for a_ in attached:
                         if is_arith_level(prog["root"], a_["level"]) == "unary":
                             ctx.hist("correspondence:unary-in-model-tree", "assertion attached to a ModifiedPrior level")
@@ -898,7 +905,7 @@ def run(ctx):
                     ctx.failure("oracle", msg, dict(c, vectors=[], units=[]), classes=classes, impl=rr)
             elif not (rr["v"] in ("assert", "limit") and rr.get("fit")) and not (
                     rr["v"] == "error" and rr.get("exc") in ("KeyError", "ZeroDivisionError")
-                    and (c.get("n_foreign") or "/" in json.dumps(c["asserts"]) + json.dumps(prog["root"]))):
+                    and (c.get("n_foreign") or any(o_ in json.dumps(c["asserts"]) + json.dumps(prog["root"]) for o_ in ('"/"', '"%"', '"//"')))):
                 ctx.oracle["failures"] += 1
                 ctx.failure("oracle", "random_instance raised %s" % show(rr), dict(c, vectors=[], units=[]), classes=classes, impl=rr)
         if i % 25 == 0:
